@@ -144,8 +144,10 @@ bool prop_C02(Tape& t, Report& rep)
                                               "\n rules  FEN: " + want + "\n session: " + rep.decoded.substr(0, 2000));
         return true;
     }
-    // (b) whole games replayed the way `position ... moves ...` does, FEN compared after every ply
-    gen::Root game = gen::gen_game(t, &rep, int(opt_int("plies", g_tier ? 600 : 250)));
+    // (b) whole games replayed the way `position ... moves ...` does, FEN compared after every ply;
+    //     now and then a very long legal game (up to 1,100 plies: longer than any internal history buffer)
+    gen::Root game = t.chance(1, 40) ? gen::long_game(t, &rep, 760, 1100) : gen::gen_game(t, &rep, int(opt_int("plies", g_tier ? 600 : 250)));
+    if (game.moves.size() >= 800) rep.cls("c02:game_of_800_or_more_plies");
     rep.decoded = game.describe();
     rep.cls("c02:games");
     Position pos(ref::to_fen(game.start));
@@ -547,6 +549,29 @@ bool prop_C04(Tape& t, Report& rep)
             if (!c04_observe(pos, rp, pathfp, rep, "game " + game.describe() + " at " + ref::to_fen(rp))) return false;
             if (wasCapOfRook) rep.cls("c04:rook_captured");
             if (wasEp) rep.cls("c04:ep_capture");
+            // make/unmake paths: every child reached by do_move and the parent after undo_move must carry the key of their position
+            if (t.chance(1, 4))
+            {
+                std::vector<ref::Move> lm = ref::legal_moves(rp);
+                // castles, promotions and captures first: they touch the most key components
+                std::stable_sort(lm.begin(), lm.end(), [&](const ref::Move& a, const ref::Move& b) {
+                    auto w = [&](const ref::Move& x) { return int(ref::is_castle(rp, x)) * 4 + int(x.promo != 0) * 2 + int(ref::is_capture(rp, x)); };
+                    return w(a) > w(b);
+                });
+                size_t lim = std::min<size_t>(lm.size(), 6);
+                for (size_t k = 0; k < lim; ++k)
+                {
+                    const ref::Move& cm = k < 3 ? lm[k] : lm[t.choose(uint32_t(lm.size()))];
+                    Move em = pos.parse_uci(cm.uci());
+                    MoveInfo mi = pos.do_move(em);
+                    ref::Pos child = ref::make(rp, cm);
+                    if (!c04_observe(pos, child, mix64(pathfp ^ fnv1a(cm.uci())), rep, "child " + cm.uci() + " of " + ref::to_fen(rp))) return false;
+                    pos.undo_move(em, mi);
+                    if (!c04_observe(pos, rp, pathfp, rep, "after do/undo of " + cm.uci() + " at " + ref::to_fen(rp))) return false;
+                    if (ref::is_castle(rp, cm)) rep.cls("c04:do_undo_castle");
+                    rep.cls("c04:do_undo_probe");
+                }
+            }
             // null move probe (as the search does it: not in check, never twice in a row)
             if (!ref::in_check(rp, rp.wtm) && t.chance(1, 4))
             {
